@@ -281,6 +281,7 @@ func c16Menu() []c16Item {
 func runC16(r *core.Run) {
 	runC16Perms(r)
 	runC16Prefix(r)
+	runC16PrefixLengths(r)
 	for _, cn := range []string{"footnote", "all+xhtml"} {
 		docsSub(r, "count-families/"+cn, "the indexed families of CountDocs (n footnotes referenced once or twice with definitions after or before, and the other n-item families, for EVERY n up to the bound) under "+cn+": same output-consistency oracle",
 			core.MustCfg(cn), CountDocs(core.Pick(r, 150, 400)), func(s *core.Sub, cv *core.Conv, w []byte) { c16Case(s, cv, w) })
@@ -469,6 +470,56 @@ func runC16Prefix(r *core.Run) {
 		s.Transitions.Store(s.Evals.Load())
 		s.Done()
 	}
+}
+
+// runC16PrefixLengths: id prefixes of EVERY length 1..48, as a string and as a byte slice with spare capacity behind it
+// (the prefix is the one value every generated id starts from; anything that builds ids by appending to it shows here).
+func runC16PrefixLengths(r *core.Run) {
+	maxL := core.Pick(r, 48, 130)
+	docs := [][]byte{[]byte("a[^1] b[^2] c[^1]\n\n[^1]: x\n\n[^2]: y[^1]\n"), []byte("[^1]: x\n\na[^1]\n"), []byte("a[^1]\n\n[^1]: x\n\n    y\n")}
+	s := r.Sub("id-prefix-lengths", fmt.Sprintf("for EVERY prefix length L = 1..%d: the prefix given as a string option, as a []byte with 64 bytes of spare capacity, and returned by a prefix function from a shared buffer, × %d documents: same oracle with that prefix", maxL, len(docs)))
+	core.ForEachIndex(maxL, core.Workers(), func(w int) func(int) {
+		return func(i int) {
+			l := i + 1
+			prefix := strings.Repeat("p", l-1) + "-"
+			roomy := append(make([]byte, 0, l+64), prefix...)
+			shared := append(make([]byte, 0, l+64), prefix...)
+			mks := []func() goldmark.Markdown{
+				func() goldmark.Markdown {
+					return goldmark.New(goldmark.WithExtensions(extension.NewFootnote(extension.WithFootnoteIDPrefix(prefix))))
+				},
+				func() goldmark.Markdown {
+					return goldmark.New(goldmark.WithExtensions(extension.NewFootnote(extension.WithFootnoteIDPrefix(roomy))))
+				},
+				func() goldmark.Markdown {
+					return goldmark.New(goldmark.WithExtensions(extension.NewFootnote(extension.WithFootnoteIDPrefixFunction(func(ast.Node) []byte { return shared }))))
+				},
+			}
+			for k, mk := range mks {
+				cv := &core.Conv{Cfg: core.MustCfg("footnote"), MD: mk()}
+				for _, d := range docs {
+					out, ok := mustConvert(s, cv, d)
+					if !ok {
+						continue
+					}
+					s.Evals.Add(1)
+					probs, _, _, lerr := footnoteOracleP(out, prefix)
+					if lerr != nil {
+						s.Violate("lex:"+lerr.Code, fmt.Sprintf("footnote prefix length %d form %d", l, k), d, nil, lerr.Error(), "", string(out))
+						continue
+					}
+					for _, p := range probs {
+						s.Violate(p.code+":prefix", fmt.Sprintf("footnote prefix length %d form %d", l, k), d, nil, p.msg, "consistent footnote numbering and cross-links", string(out))
+					}
+					s.Distinct(core.Hash(out))
+				}
+			}
+		}
+	}, r.Expired)
+	s.Bound = fmt.Sprintf("L=1..%d × 3 forms × %d documents", maxL, len(docs))
+	s.States.Store(s.Evals.Load())
+	s.Transitions.Store(s.Evals.Load())
+	s.Done()
 }
 
 func replayC16(r *core.Run, v *core.Violation) {
